@@ -567,6 +567,13 @@ def _operators(ctx, m, g):
                               '`%s` selects exactly the rows it should exclude' % ('site' if is_has else 'not site'),
                               'the identity test of `%s` has the wrong polarity' % ('has' if is_has else 'not'), file=F,
                               line=node.lineno, engine='E9')
+            elif recs == [('rec', '%s.right' % node_p)] and 'NOT_FOUND' not in text:
+                ctx.violation('C11.D3', '%s::_generate_filter_in_python' % F, ''.join(consts),
+                              'rows [{curVal: 0}, {curVal: 5}, {}]: the filter `curVal` must select the first two (the tag '
+                              'is present), `not curVal` only the third; a test on the value (%s) treats a present tag '
+                              'holding 0, false, "" or null as absent' % text.replace('()', '(<path>)'),
+                              '`%s` is compiled to a test of the tag\'s value instead of an identity test against the '
+                              'NOT_FOUND sentinel' % ('has' if is_has else 'not'), file=F, line=node.lineno, engine='E9')
             else:
                 ctx.error('C11.D3', 'has/not branch fragments not recognised: %s' % (frs,))
         elif t == 'else' and len(tests) == 1:
